@@ -276,16 +276,20 @@ class StructureMetaType(MetaType):
                 offset = struct_start + field.offset
                 stream.seek(offset)
 
-            if cls.__align__ and field.offset is None:
+            bits_type = (field.type.type if isinstance(field.type, EnumMetaType) else field.type) if field.bits else None
+            # A bit field that continues the current storage unit doesn't occupy a position of its own
+            continues_unit = field.bits and bit_buffer._remaining > 0 and bit_buffer._type == bits_type
+
+            if cls.__align__ and field.offset is None and not continues_unit:
                 # Previous field was dynamically sized and we need to align
                 offset += -offset & (field.alignment - 1)
                 stream.seek(offset)
 
             if field.bits:
                 if isinstance(field.type, EnumMetaType):
-                    value = field.type(bit_buffer.read(field.type.type, field.bits))
+                    value = field.type(bit_buffer.read(bits_type, field.bits))
                 else:
-                    value = bit_buffer.read(field.type, field.bits)
+                    value = bit_buffer.read(bits_type, field.bits)
 
                 result[field._name] = value
                 continue
